@@ -576,6 +576,10 @@ func writeEvidence(ck *Check, tier string, seed uint64, st *workerStats, scenari
 		"assumptions": ck.Assumptions, "wall_s": wall, "violations": unlisted,
 	}
 	b, _ := json.MarshalIndent(ev, "", " ")
-	_ = os.MkdirAll(filepath.Join(root, "evidence"), 0o755)
-	_ = os.WriteFile(filepath.Join(root, "evidence", ck.ID+".json"), b, 0o644)
+	evdir := filepath.Join(root, "evidence")
+	if d := os.Getenv("VERIF_EVIDENCE_DIR"); d != "" {
+		evdir = d // mutation-testing runs against a scratch copy must not overwrite real evidence
+	}
+	_ = os.MkdirAll(evdir, 0o755)
+	_ = os.WriteFile(filepath.Join(evdir, ck.ID+".json"), b, 0o644)
 }
